@@ -114,6 +114,20 @@ Proof.
   rewrite (nth_map_lt sc beam None dslot i) in Hs by (rewrite beam_length; lia).
   rewrite Hi in Hs. destruct (sc (nth j beam dslot)); [discriminate|reflexivity].
 Qed.
+
+Lemma exhaustive_wide p :
+  eos_ok V eos -> wide V width eos max_iters -> to_completion eos fin_all ->
+  complete V eos max_iters p -> sfin (chain calc s0 p) = true ->
+  exists sl, In sl beam /\ vpath sl = p /\ sc sl = chain calc s0 p.
+Proof.
+  intros He Hw Hr Hc Hf.
+  destruct (asearch_exhaustive topk calc dstate V width eos fin_all Htopk Hlm HV Hwidth
+              max_iters s0 p He Hw Hr Hc Hf) as (a & Hin & Hp & Hs).
+  fold x in Hin. apply (In_nth _ _ (adflt dstate)) in Hin. destruct Hin as (k & Hk & Hka).
+  rewrite x_length in Hk. destruct (slot_view k Hk) as (Hv & Hsc).
+  exists (nth k beam dslot). split; [apply nth_In; now rewrite beam_length|].
+  rewrite Hv, Hsc, Hka. auto.
+Qed.
 End One.
 
 Theorem shape max_iters inits :
@@ -164,4 +178,51 @@ Proof.
   split; [apply topk_stable_ok|]. split.
   - apply hash_calc_lm_ok. repeat constructor.
   - vm_compute. reflexivity.
+Qed.
+
+(* ---- "the number of complete sequences", computably -------------------------------------------- *)
+Lemma live_seqs_all V eos : forall t p, in_vocab V p ->
+  match eos with Some e => ~ In e p | None => True end -> length p = t -> In p (live_seqs V eos t).
+Proof.
+  induction t as [|t IH]; intros p Hv Hne Hl.
+  - destruct p; [now left|discriminate].
+  - assert (Hnn : p <> []) by (intros ->; discriminate).
+    destruct (exists_last Hnn) as (q & v & ->). rewrite app_length in Hl. cbn in Hl.
+    apply Forall_app in Hv. destruct Hv as (Hvq & Hvv). inversion Hvv as [|? ? Hv0 _]; subst.
+    cbn [live_seqs]. apply in_flat_map. exists q. split.
+    + apply IH; [exact Hvq| |lia]. destruct eos; [|exact I]. intros Hin. apply Hne. apply in_or_app. now left.
+    + apply in_flat_map. exists (Z.to_nat v). split; [apply in_seq; lia|].
+      rewrite Z2Nat.id by lia. destruct eos as [e|]; [|now left].
+      destruct (v =? e)%Z eqn:E; [|now left]. apply Z.eqb_eq in E. subst e.
+      exfalso. apply Hne. apply in_or_app. right. now left.
+Qed.
+
+Lemma complete_in_enum V eos T p : complete V eos T p -> In p (complete_seqs V eos T).
+Proof.
+  unfold complete, complete_seqs. destruct eos as [e|].
+  - intros (Hv & [(Hnn & Hl & Hef & Hlen)|(Hne & Hlen)]); apply in_or_app.
+    + left. destruct (exists_last Hnn) as (q & v & ->). rewrite last_last in Hl. subst v.
+      rewrite removelast_snoc in Hef. rewrite app_length in Hlen. cbn in Hlen.
+      apply Forall_app in Hv. destruct Hv as (Hvq & _).
+      apply in_flat_map. exists (length q). split; [apply in_seq; lia|].
+      apply in_map_iff. exists q. split; [reflexivity|]. now apply live_seqs_all.
+    + right. now apply live_seqs_all.
+  - intros (Hv & Hlen). now apply live_seqs_all.
+Qed.
+
+Lemma wide_of_count V width eos T : length (complete_seqs V eos T) <= width -> wide V width eos T.
+Proof.
+  intros H l Hnd Hall. etransitivity; [|exact H]. apply NoDup_incl_length; [exact Hnd|].
+  intros p Hp. apply complete_in_enum. now apply Hall.
+Qed.
+
+Lemma ex_wide : wide 2 3 (Some 1%Z) 2 /\ eos_ok 2 (Some 1%Z) /\ to_completion (Some 1%Z) true /\
+  complete 2 (Some 1%Z) 2 [0%Z; 1%Z] /\ sfin (chain ex_lm 0%Z [0%Z; 1%Z]) = true.
+Proof.
+  split; [apply wide_of_count; vm_compute; lia|]. split; [cbn; lia|]. split; [now left|]. split.
+  - split.
+    + repeat constructor; lia.
+    + left. split; [discriminate|]. split; [reflexivity|]. split; [|cbn; lia].
+      cbn. intros [H|[]]. discriminate.
+  - reflexivity.
 Qed.
